@@ -35,3 +35,21 @@ Theorem C04_duplicate_fallback_refuted :
   is_key_expired (t0 + 120 * sec - p_rci pol_nc) (t0 / sec) (p_expire pol_nc) = true.
 Proof. exact C04_refuted_by_duplicate_fallback. Qed.
 Print Assumptions C04_duplicate_fallback_refuted.
+
+(* clause 1 as a theorem over ALL histories: an unfaulted Encrypt that returns a record wrote it under an intermediate key that is
+   not expired at the time of the operation - whichever way the key was obtained (cache hit, stale reload, metastore load,
+   creation, duplicate fallback); policy sanity: ExpireKeyAfter >= CreateDatePrecision + 1 s.  (Envelope/Expiry.v) *)
+From Asherah Require Import Envelope.Coherent Envelope.Expiry.
+
+Theorem C04_unfaulted_encrypt_key_not_expired : forall svc prod t0 ops s payload,
+  Forall (benign svc prod) ops ->
+  let h := snd (hrun (hinit t0) ops) in
+  match hstep h (HEncrypt s payload []) with
+  | (OEnc pm _, _, _) =>
+      forall x fa, nth_error (w_sessions (h_world h)) s = Some x -> nth_error (w_factories (h_world h)) (ss_factory x) = Some fa ->
+        p_expire (fa_policy fa) >= p_precision (fa_policy fa) + sec -> p_expire (fa_policy fa) >= sec ->
+        is_key_expired (w_now (h_world h)) (km_created pm) (p_expire (fa_policy fa)) = false
+  | _ => True
+  end.
+Proof. exact unfaulted_encrypt_key_not_expired. Qed.
+Print Assumptions C04_unfaulted_encrypt_key_not_expired.
